@@ -88,17 +88,20 @@ Single(c) == [kind |-> "ok", x |-> <<c>>, w |-> <<One>>]
 
 Densities(type, xs, c, sigma) == [k \in 1..Len(xs) |-> Density(type, xs[k], c, sigma)]
 
-\* the values: [kind |-> "ok" | "undefined", x |-> the points that take part]
+\* the values: [kind |-> "ok" | "undefined", x |-> the points that take part (for "undefined":
+\* the points at which a density would have to be evaluated)]
 Values(q) ==
     LET sigma == Sigma(q.width, q.value, q.relative)
         c == Centre(q.value, q.relative)
     IN  IF Degenerate(sigma, q.n)
         THEN IF InLimits(c, q.lb, q.ub) \/ Variant = "degenerate-ignores-limits"
              THEN [kind |-> "ok", x |-> <<c>>] ELSE [kind |-> "ok", x |-> <<>>]
-        ELSE IF q.type \in PositiveTypes /\ ~Lt(Zero, c)
-        THEN [kind |-> "undefined", x |-> <<>>]
         ELSE LET g == FullGrid(q.type, c, sigma, q.nsigma, q.n)
-             IN [kind |-> "ok", x |-> SelectSeq(g, LAMBDA v : Keep(q.type, v, c, sigma, q.lb, q.ub))]
+                 xs == SelectSeq(g, LAMBDA v : Keep(q.type, v, c, sigma, q.lb, q.ub))
+             IN \* lognormal and Schulz are parameterised by a positive median / mean: with a
+                \* centre <= 0 (any angle) there is no such density to evaluate at xs
+                IF q.type \in PositiveTypes /\ ~Lt(Zero, c)
+                THEN [kind |-> "undefined", x |-> xs] ELSE [kind |-> "ok", x |-> xs]
 
 \* d = densities at the values that take part, s = the sum they are normalised by
 Representable(s) == IsFinite(s) /\ Lt(Zero, s)
